@@ -100,6 +100,11 @@ CHECKS = {
         note="Failure points are the two the property names (unwritable target, unserialisable member); a crash of the interpreter in the middle of pickle.dump is not produced.",
         ref="6 C20", tech="TLA+ life-cycle machine with disk and SaveFail action model-checked by TLC; TLC trace validation of recorded save/load histories incl. injected failures",
     ),
+    "C17": dict(
+        text="c-representation ranking objects for strongly consistent bases (single-conditional and unfalsifiable conditionals included) are constructed on the real code; TLC checks on the recorded life cycle that the impacts are non-negative, form a c-representation, that no c-representation lies strictly below them (finite downward search = Pareto-minimality), that ranks equal the impact sums, that every base conditional and every query c-inference answers True is accepted; c_inference_pareto_front runs in a subprocess under a 60 s limit and TLC checks the returned vectors are exactly the Pareto-minimal c-representations up to the stated impact bound.",
+        note="Completeness of the front is checked up to max(2^(n-1), largest returned)+1 per impact; everything else is exact. Bases over 2-3 atoms, <= 3 conditionals.",
+        ref="6 C17", tech="TLC trace validation of recorded object life cycles against TLA+ definitions (IsCRep, SmallerCReps, ParetoMin)",
+    ),
 }
 
 NOT_YET = {
